@@ -682,7 +682,9 @@ class SimplicialComplex(Hypergraph):
 
             if simplex:
                 new_faces = self._subfaces(simplex)
-                self.add_simplices_from(new_faces)
+                # (members, attr) pairs: a bare face starting with a string label
+                # would be mistaken for another format
+                self.add_simplices_from([(face, {}) for face in new_faces])
 
     def add_weighted_simplices_from(
         self, ebunch_to_add, max_order=None, weight="weight", **attr
